@@ -6,6 +6,8 @@ mod devtools;
 mod exec;
 mod progen;
 mod progen_c01;
+mod progen_c17;
+mod progen_c05;
 mod model;
 mod props;
 mod report;
